@@ -38,6 +38,7 @@ theorem stmt_succ (W : World) (fuel : Nat) (ih : IHle W fuel) : StmtIH W (fuel +
     exact ⟨σ, Steps.refl σ, hpc, hr, SameStacks.refl σ⟩
   | seq a b => exact case_seq W fuel ih a b sc sfx fd sd off below s σ hc hpc hr hw ha
   | dim x t p => exact case_dim W fuel ih x t p sc sfx fd sd off below s σ hc hpc hr hw ha
+  | sdim x t p => exact case_sdim W fuel x t p sc sfx fd sd off below s σ hc hpc hr hw ha
   | assign x t e p => exact case_assign W fuel ih x t e p sc sfx fd sd off below s σ hc hpc hr hw ha
   | print items p => exact case_print W fuel ih items p sc sfx fd sd off below s σ hc hpc hr hw ha
   | data items p => simp only [Wf] at hw
@@ -203,26 +204,35 @@ theorem compileCorrect_spec : RbModel.Proc.Spec.CompileCorrect ProgWf := by
   | exited => trivial
   | illFormed => trivial
 
-/-! #### non-vacuity: a concrete program with a FUNCTION (by-value argument) and a SUB (by-reference argument)
+/-! #### non-vacuity: a concrete program with a DIM SHARED variable, a FUNCTION (by-value argument) and a STATIC SUB
+(by-reference argument, a persistent counter, a write to the shared variable)
 
-    X% = F%(2) : S X% : PRINT X%
+    DIM SHARED G%
+    X% = F%(2) : S X% : S X% : PRINT X%; G%
     FUNCTION F%(A%) : F% = A% + 1 : END FUNCTION
-    SUB S(B%) : B% = B% * 2 : END SUB
+    SUB S(B%) STATIC : C% = C% + 1 : G% = G% + C% : B% = B% * 2 : END SUB
 -/
 
 private def demoProg : SProgram :=
   { slots := [.int],
+    gslots := [.int],
     body :=
-      .seq (.assign 0 .int (.callFn 0 (.cons (.lit (.int 2) ⟨1, 9⟩) "A" .int .nil) .int ⟨1, 6⟩) ⟨1, 1⟩)
-      (.seq (.callSub 1 (.cons (.var 0 .int ⟨2, 3⟩) "B" .int .nil) ⟨2, 1⟩)
-      (.seq (.print [.expr (.var 0 .int ⟨3, 7⟩)] ⟨3, 1⟩) .skip)),
+      .seq (.dim ⟨true, 0⟩ .int ⟨1, 12⟩)
+      (.seq (.assign ⟨false, 0⟩ .int (.callFn 0 (.cons (.lit (.int 2) ⟨2, 9⟩) "A" .int .nil) .int ⟨2, 6⟩) ⟨2, 1⟩)
+      (.seq (.callSub 1 (.cons (.var ⟨false, 0⟩ .int ⟨3, 3⟩) "B" .int .nil) ⟨3, 1⟩)
+      (.seq (.callSub 1 (.cons (.var ⟨false, 0⟩ .int ⟨4, 3⟩) "B" .int .nil) ⟨4, 1⟩)
+      (.seq (.print [.expr (.var ⟨false, 0⟩ .int ⟨5, 7⟩), .semicolon, .expr (.var ⟨true, 0⟩ .int ⟨5, 11⟩)] ⟨5, 1⟩) .skip)))),
     procs :=
       [ { result := some .int, name := "F%", params := [("A", .int)], slots := [.int, .int],
-          body := .seq (.assign 1 .int (.bin .plus (.var 0 .int ⟨5, 8⟩) (.lit (.int 1) ⟨5, 13⟩) .int ⟨5, 11⟩) ⟨5, 3⟩) .skip,
-          pos := ⟨4, 1⟩ },
-        { result := none, name := "S", params := [("B", .int)], slots := [.int],
-          body := .seq (.assign 0 .int (.bin .multiply (.var 0 .int ⟨8, 8⟩) (.lit (.int 2) ⟨8, 13⟩) .int ⟨8, 11⟩) ⟨8, 3⟩) .skip,
-          pos := ⟨7, 1⟩ } ] }
+          body := .seq (.assign ⟨false, 1⟩ .int (.bin .plus (.var ⟨false, 0⟩ .int ⟨7, 8⟩) (.lit (.int 1) ⟨7, 13⟩) .int ⟨7, 11⟩) ⟨7, 3⟩) .skip,
+          pos := ⟨6, 1⟩ },
+        { result := none, name := "S", params := [("B", .int)], slots := [.int, .int],
+          body :=
+            .seq (.sdim 1 .int ⟨10, 3⟩)
+            (.seq (.assign ⟨false, 1⟩ .int (.bin .plus (.var ⟨false, 1⟩ .int ⟨10, 8⟩) (.lit (.int 1) ⟨10, 13⟩) .int ⟨10, 11⟩) ⟨10, 3⟩)
+            (.seq (.assign ⟨true, 0⟩ .int (.bin .plus (.var ⟨true, 0⟩ .int ⟨11, 8⟩) (.var ⟨false, 1⟩ .int ⟨11, 13⟩) .int ⟨11, 11⟩) ⟨11, 3⟩)
+            (.seq (.assign ⟨false, 0⟩ .int (.bin .multiply (.var ⟨false, 0⟩ .int ⟨12, 8⟩) (.lit (.int 2) ⟨12, 13⟩) .int ⟨12, 11⟩) ⟨12, 3⟩) .skip))),
+          pos := ⟨9, 1⟩, static := true } ] }
 
 /-- the premise of `Proc.compile_correct` is satisfiable: the demo program passes the checker -/
 example : progWfB demoProg = true := by decide
